@@ -36,6 +36,14 @@ func runHttpReal(r *rand.Rand, met *metrics.Metrics, rep *vh.Report) *caseOut {
 			mu.Lock()
 			got = append(got, arrival{name, q.URL.Path, q.Header.Clone(), string(b)})
 			mu.Unlock()
+			// a receiver may refuse: /m<i>/r<code> answers with that status
+			if i := strings.LastIndex(q.URL.Path, "/r"); i >= 0 {
+				var code int
+				if _, err := fmt.Sscanf(q.URL.Path[i:], "/r%d", &code); err == nil && code >= 400 {
+					w.WriteHeader(code)
+					return
+				}
+			}
 			w.WriteHeader(200)
 		}))
 	}
@@ -55,6 +63,7 @@ func runHttpReal(r *rand.Rand, met *metrics.Metrics, rep *vh.Report) *caseOut {
 		ok                    bool
 		err                   error
 		done                  bool
+		refuse                int // the receiver answers with this status instead of 200
 	}
 	var seq []*sent
 	for i := 0; i < n; i++ {
@@ -70,6 +79,10 @@ func runHttpReal(r *rand.Rand, met *metrics.Metrics, rep *vh.Report) *caseOut {
 			s.data = fmt.Sprintf(`{"url":%q,"headers":{"X-M%d":"%d","Authorization":"token-%d"}}`, base+s.path, i, i, i)
 		case 2:
 			s.srv, s.path = name, fmt.Sprintf("/m%d", i)
+			if r.Intn(2) == 0 {
+				s.refuse = []int{404, 429, 401, 500, 503}[r.Intn(5)]
+				s.path += fmt.Sprintf("/r%d", s.refuse)
+			}
 			s.data = fmt.Sprintf(`{"url":%q}`, base+s.path)
 		case 3:
 			s.srv, s.path = name, fmt.Sprintf("/m%d", i)
@@ -126,17 +139,24 @@ func runHttpReal(r *rand.Rand, met *metrics.Metrics, rep *vh.Report) *caseOut {
 			out.violate("C19", "http:misdirected", fmt.Sprintf("message %d for %s%s arrived as %v", i, s.srv, s.path, mine))
 			continue
 		}
+		if s.refuse != 0 {
+			rep.Hit("httpreal.refusing-receiver-judged")
+			if s.ok {
+				out.violate("C08,C19", "http:refused-reported-delivered", fmt.Sprintf("message %d: the receiver answered %d, the hand-off was reported successful (it will be recorded as enqueued and not retried)", i, s.refuse))
+			}
+			continue
+		}
 		if !s.ok {
 			out.violate("C19", "http:delivered-reported-failed", fmt.Sprintf("message %d arrived at %s%s (answered 200) but was reported failed (%v)", i, s.srv, s.path, s.err))
 		}
 		for k, v := range s.hdr {
 			if mine[0].hdr.Get(k) != v {
-				out.violate("C19", "http:header-lost", fmt.Sprintf("message %d: header %s arrived as %q, configured %q", i, k, mine[0].hdr.Get(k), v))
+				out.violate("C19,C20", "http:header-lost", fmt.Sprintf("message %d: header %s arrived as %q, configured %q", i, k, mine[0].hdr.Get(k), v))
 			}
 		}
 		for k, vs := range mine[0].hdr {
 			if (strings.HasPrefix(k, "X-M") || k == "Authorization") && s.hdr[k] == "" {
-				out.violate("C19", "http:foreign-header", fmt.Sprintf("message %d for %s%s (receiver data %s) arrived with header %s: %v, which belongs to another receiver", i, s.srv, s.path, s.data, k, vs))
+				out.violate("C19,C20", "http:foreign-header", fmt.Sprintf("message %d for %s%s (receiver data %s) arrived with header %s: %v, which belongs to another receiver", i, s.srv, s.path, s.data, k, vs))
 			}
 		}
 	}
